@@ -52,7 +52,7 @@ def coq_env(env):
             + '; '.join(coq_lookup(x) for x in env.get('rows') or []) + '])')
 
 
-HEADER = ('From BV Require Import Model.Expr Model.EvalI.\n'
+HEADER = ('From BV Require Import Model.Expr Model.EvalI Model.PhiI.\n'
           'Open Scope Z_scope. Open Scope string_scope.\n')
 
 
@@ -60,7 +60,7 @@ def _finite(x):
     return isinstance(x, (int, float)) and math.isfinite(x)
 
 
-def check_values(ctx, stream, cases, relbits=-30, batch=150, phi='PhiI_none', strict_nan=False):
+def check_values(ctx, stream, cases, relbits=-30, batch=150, phi='PhiI_series', strict_nan=False):
     """strict_nan: when the model says 'outside the domain', demand that the implementation failed too
     (used for the missing-data rule); otherwise nothing is claimed about such cases."""
     files = {}
